@@ -422,3 +422,21 @@ M("C11", "expect_batch: right walk contracts next with R on the wrong side", "ki
 M("C13", "twin: left walk through .mH with conj(R)", "twin",
   [(MPSF, "                center_factor.view(center_factor.shape[0], -1).mT,", "                center_factor.view(center_factor.shape[0], -1).mH,"),
    (MPSF, "                self.factors[qubit_index],\n                r.to(self.factors[qubit_index].device),\n                ([2], [1]),", "                self.factors[qubit_index],\n                r.conj().to(self.factors[qubit_index].device),\n                ([2], [1]),")])
+M("C04", "emu-sv guard polarity flipped (accepts only XY)", "kill",
+  [(SVI, "        if data.hamiltonian_type != HamiltonianType.Rydberg or data.dim != 2:", "        if data.hamiltonian_type == HamiltonianType.Rydberg or data.dim != 2:")], "DISPATCH-reject")
+M("C04", "emu-sv accepts three levels", "kill",
+  [(SVI, "        if data.hamiltonian_type != HamiltonianType.Rydberg or data.dim != 2:", "        if data.hamiltonian_type != HamiltonianType.Rydberg or data.dim != 3:")], "DISPATCH-reject")
+M("C04", "emu-sv initial-state size check inverted", "kill",
+  [(SVI, "            self._config.initial_state.n_qudits != self.nqubits\n", "            self._config.initial_state.n_qudits == self.nqubits\n")], "DISPATCH-reject")
+M("C04", "twin: emu-sv guard written with not/and", "twin",
+  [(SVI, "        if data.hamiltonian_type != HamiltonianType.Rydberg or data.dim != 2:", "        if not (data.hamiltonian_type == HamiltonianType.Rydberg and data.dim == 2):")])
+M("C13", "emu-sv rebuilds the callbacks' Hamiltonian whenever observables are due", "kill",
+  [(SVI, "        if not self._current_H and callbacks_for_current_time_step:", "        if not self._current_H or callbacks_for_current_time_step:")], "STEP-sv")
+M("C13", "emu-sv initial Hamiltonian: interaction matrix at the wrong time", "kill",
+  [(SVI, "                    0.5 * (self.target_times[step_idx] + self.target_times[step_idx + 1])\n                ),\n                device=self.state.data.device,",
+    "                    0.5 * (self.target_times[step_idx] - self.target_times[step_idx + 1])\n                ),\n                device=self.state.data.device,")], "STEP-sv")
+M("C13", "emu-sv initial Hamiltonian: phase row from delta", "kill",
+  [(SVI, "                deltas=self.delta[0],\n                phis=self.phi[0],", "                deltas=self.delta[0],\n                phis=self.delta[0],")], "ROLE-sv")
+M("C13", "twin: initial Hamiltonian at the start of the step", "twin",
+  [(SVI, "                    0.5 * (self.target_times[step_idx] + self.target_times[step_idx + 1])\n                ),\n                device=self.state.data.device,",
+    "                    self.target_times[step_idx]\n                ),\n                device=self.state.data.device,")])
